@@ -200,8 +200,9 @@ def instances(tier):
     return out
 
 
-def _mk(c, cls, n, **kw):
-    dt = np.dtype(object) if c.symbolic else np.dtype(np.float64)
+def _mk(c, cls, n, dual=False, **kw):
+    # (states of dual numbers live in object arrays in the float replay too: the integrator updates its buffers in place)
+    dt = np.dtype(object) if (c.symbolic or dual) else np.dtype(np.float64)
     return cls((n,), dtype=dt, **kw)
 
 
@@ -227,7 +228,7 @@ def scenario(c, inst):
         kick = [False] * d + [True] * d          # default mask: latter half are momenta
         t, h = c.real("t"), c.real("h")
         c.assume(h != 0)
-        st, integ = run(_mk, c, cls, n)
+        st, integ = run(_mk, c, cls, n, True)
         if st != "ok":
             c.check("c10.constructs", False, info=repr(integ))
             return
@@ -406,7 +407,7 @@ def _mask_default_after_custom(c, inst):
     a = de.OdeSystem(rhs0, y0=c.array([c.real("a%d" % i) for i in range(n)]), t=(0, 1), dt=0.5)
     a.method = cls
     run(a.set_kick_vars, np.array(custom))
-    st, integ = run(_mk, c, cls, n)
+    st, integ = run(_mk, c, cls, n, True)
     if st != "ok":
         c.check("c10.mask.default_constructs", False, info=repr(integ)[:200])
         return
@@ -435,7 +436,7 @@ def _masks(c, inst):
     t, h = c.real("t"), c.real("h")
     c.assume(h != 0)
     if inst["kind"] == "mask_ctor":
-        st, integ = run(_mk, c, cls, n, staggered_mask=np.array(kick))
+        st, integ = run(_mk, c, cls, n, True, staggered_mask=np.array(kick))
         c.case()
         c.check("c10.mask.constructor_accepts_a_mask", st == "ok", info=repr(integ)[:200])
         if st != "ok":
@@ -446,6 +447,8 @@ def _masks(c, inst):
         def rhs0(t_, y_, **kw):
             return 0 * y_
         y00 = c.array([c.real("a0"), c.real("a1")])
+        if not c.symbolic:
+            y00 = np.array([float(v) for v in y00], dtype=object)      # dual numbers need object buffers in the float replay too
         a = de.OdeSystem(rhs0, y0=y00, t=(0, 1), dt=0.5)
         a.method = "Symplectic Forward Euler"
         st, r = run(a.set_kick_vars, np.array(kick))
